@@ -257,14 +257,21 @@ Definition tree_obs (dom : list N) (masked : N -> bool) (t : tree) : obs :=
 Definition touched (s : selection) (i : N) : bool :=
   s CAdd i || s CDel i || s CRen i || s CKind i || s CText i || s CTarget i.
 
-(* observation: offered changes; outcome of shelve_changes; the shelf ids present afterwards (the
+(* [fault]: the shelf file raises ENOSPC while write_shelf serialises the shelf.  shelve_changes writes
+   the shelf BEFORE creator.transform(), so the error surfaces with the tree untouched (also when the
+   work transform would have been refused) and the partial shelf file is deleted.
+   After a failed shelve the last component is the (unchanged) working tree.
+   observation: offered changes; outcome of shelve_changes; the shelf ids present afterwards (the
    shelf file is removed again when the work transform is refused, b9aec9c); outcome of unshelve *)
-Definition run_tree (dom : list N) (basisL wtL : list (N * entry)) (selL : list (ctag * N)) : obs :=
+Definition run_tree (fault : bool) (dom : list N) (basisL wtL : list (N * entry)) (selL : list (ctag * N)) : obs :=
   let basis := of_list basisL in let wt := of_list wtL in let s := sel_of selL in
   let off := OL (flat_map (fun i => map (fun t => OL [oN i; ctag_obs t]) (offered_at (basis i) (wt i))) dom) in
   match shelve dom basis wt s with
   | SShelfNotWf => OL [off; OT "shelf-not-wf"%string; ON; ON]
-  | SMalformed => OL [off; OE "MalformedTransform"%string; OL []; ON]
+  | _ => if fault then OL [off; OE "OSError"%string; OL []; tree_obs dom (fun _ => false) wt] else
+  match shelve dom basis wt s with
+  | SShelfNotWf => ON
+  | SMalformed => OL [off; OE "MalformedTransform"%string; OL []; tree_obs dom (fun _ => false) wt]
   | SOk work shelf =>
       OL [off; tree_obs dom (fun _ => false) work; OL [oN 1];
           match unshelve dom basis shelf work with
@@ -272,4 +279,5 @@ Definition run_tree (dom : list N) (basisL wtL : list (N * entry)) (selL : list 
           | UConflict => OT "conflict"%string
           | UOk t => tree_obs dom (touched s) t
           end]
+  end
   end.
